@@ -39,6 +39,13 @@ Lemma add_signature_ok : sig_eqb Gen_Members.add_signature modelled_add_signatur
 Proof. vm_compute. reflexivity. Qed.
 Lemma class_level_state_ok : set_eqb Gen_Members.class_level_attrs modelled_class_attrs = true.
 Proof. vm_compute. reflexivity. Qed.
+
+(* the switch is a plain global: neuroml/build_time_validation.py is a docstring and `ENABLED = True`, the helpers of
+   neuroml/__init__.py assign / return that attribute of the module bound by `from . import build_time_validation`, and the only
+   other use in the package is the read in add()/component_factory - one cell, shared by every thread *)
+Lemma switch_is_plain_global :
+  switch_plain_globalb Gen_Members.switch_module Gen_Members.switch_helpers Gen_Members.switch_binding Gen_Members.switch_uses = true.
+Proof. vm_compute. reflexivity. Qed.
 """
 
 ANY6 = ["Annotation", "CellSet", "ForwardTransition", "ReverseTransition", "ReactionScheme", "Region"]
@@ -209,6 +216,82 @@ def pair_sessions(ck, tab, T, mir, exhaustive):
     return sessions
 
 
+THREAD_FIXED = [("Network", [["id", {"s": "net"}]], "NeuroMLDocument"), ("IafCell", [["id", {"s": "iaf"}]], "NeuroMLDocument")]
+
+
+def thread_patterns(F, A, V):
+    """histories of switch / factory / add operations spread over threads.  F(where, **over) a factory call with keywords that
+    validate() rejects, A(where) the same through parent.add(<class>), V(where) a factory call with schema-valid keywords;
+    where: "main", "new" (a thread started for the operation), "pool:a"/"pool:b" (long-lived pool workers)"""
+    en, dis = (lambda w: {"op": "enable", "thread": w}), (lambda w: {"op": "disable", "thread": w})
+    st = lambda w, v: {"op": "set", "value": v, "thread": w}  # noqa
+    return [
+        # toggled in the main thread, used in workers
+        [en("main"), F("new"), F("pool:a"), A("pool:a"), F("new", validate=False), dis("main"), F("main"), F("new"), F("pool:a"),
+         A("new"), A("pool:a"), en("main"), F("new"), F("pool:a"), A("pool:a"), F("main")],
+        # toggled in a thread that is gone afterwards, used in the main thread
+        [dis("new"), F("main"), A("main"), F("pool:a"), en("new"), F("main"), A("main"), F("pool:a"), st("new", False), F("main"),
+         st("new", True), F("main"), A("new")],
+        # a pool worker toggles, the main thread toggles back (and the reverse)
+        [dis("pool:a"), F("pool:a"), en("main"), F("pool:a"), A("pool:a"), F("main"), dis("main"), F("pool:a"), en("pool:a"),
+         F("main"), A("main"), F("pool:a"), F("pool:b")],
+        # two workers; the first one exists and has validated before the switch moves
+        [V("pool:a"), st("pool:a", False), F("pool:b"), A("pool:b"), F("main"), F("new"), st("pool:b", True), F("pool:a"), A("pool:a"),
+         F("main"), F("new")],
+        # default position seen from threads that never touched the switch
+        [F("new"), F("pool:a"), A("new"), dis("pool:a"), F("new"), F("main"), en("new"), F("pool:a"), F("main")],
+    ]
+
+
+def thread_sessions(ck, tab, T, mir, exhaustive):
+    rng = ck.rng
+    vg = ValidGen(tab, T, rng)
+    subjects = []
+    for c, bad, parent in THREAD_FIXED:
+        if c in T.order and parent in T.order:
+            subjects.append((c, vg.kwargs(c, optional=0.0), bad, "required-missing", parent))
+    pool = [c for c in T.order if c not in [x[0] for x in THREAD_FIXED]]
+    rng.shuffle(pool)
+    want = len(subjects) + (40 if exhaustive else 4)
+    for c in pool:
+        if len(subjects) >= want:
+            break
+        valid = vg.kwargs(c, optional=0.0)
+        bad, key = vg.violate(c, valid)
+        if bad is None:
+            continue
+        parents = [p for p in mir.order if len(mir.targets(p, c)) == 1]
+        subjects.append((c, valid, bad, "facet:" + key, rng.choice(parents) if parents else None))
+    sessions = []
+    for c, valid, bad, key, parent in subjects:
+        def F(where, validate=True, c=c, bad=bad, key=key):
+            return {"op": "factory", "cls": c, "kw": bad, "validate": validate, "form": rng.choice(["str", "class"]),
+                    "via": rng.choice(["classmethod", "utils"]), "host": "NeuroMLDocument", "kind": "facet", "key": key, "thread": where}
+
+        def V(where, c=c, valid=valid):
+            return {"op": "factory", "cls": c, "kw": valid, "validate": True, "form": "str", "via": "classmethod",
+                    "host": "NeuroMLDocument", "kind": "valid", "key": None, "thread": where}
+
+        def A(where, c=c, bad=bad, key=key, parent=parent):
+            if parent is None:
+                return F(where)
+            return {"op": "add", "parent": parent, "cls": c, "kw": bad, "validate": True, "form": rng.choice(["str", "class"]),
+                    "key": key, "thread": where}
+        for ops in thread_patterns(F, A, V):
+            sessions.append({"isolate": True, "threads": True, "ops": ops})
+    ck.extra["thread_sessions"] = len(sessions)
+    ck.extra["thread_session_subjects"] = [x[0] for x in subjects][:12]
+    return sessions
+
+
+THREAD_NO = {"main": 0, "new": 1}
+
+
+def thread_no(w):
+    w = w or "main"
+    return THREAD_NO[w] if w in THREAD_NO else 2 + (ord(w[-1]) - ord("a"))
+
+
 def misspell(rng, mir, c):
     names = [m["name"] for m in mir.members(c)] or ["id"]
     allowed = set(names) | set(supergen.TECHNICAL)
@@ -286,9 +369,14 @@ def fcase_coq(op, r, enabled):
 
 def evaluate(ck, sessions, results, initial):
     rows, meta = [], []
+    traces = []
     for sess, res in zip(sessions, results):
         enabled = initial
-        for op, r in zip(sess["ops"], res):
+        threaded = bool(sess.get("threads"))
+        trace = []
+        if threaded:
+            traces.append((sess, trace))
+        for idx, (op, r) in enumerate(zip(sess["ops"], res)):
             if "harness_error" in r:
                 ck.disagree("harness", op, "session could not be run", r["harness_error"])
                 break
@@ -298,12 +386,52 @@ def evaluate(ck, sessions, results, initial):
                 enabled = False
             elif op["op"] == "set":
                 enabled = bool(op["value"])
-            if r.get("switch") != enabled or r.get("getter") != enabled:
+            where = op.get("thread") or "main"
+            so_far = [dict((k_, v_) for k_, v_ in o_.items() if k_ != "host") for o_ in sess["ops"][:idx + 1]]
+            if threaded:
+                # the model has one switch: every live thread must observe the position the operations so far determine,
+                # whichever thread issued them
+                seen = [(where, r.get("switch")), (where, r.get("getter"))]
+                for w_, (a_, g_) in sorted((r.get("seen") or {}).items()):
+                    seen += [(w_, a_), (w_, g_)]
+                off = sorted(set(w_ for w_, v_ in seen if v_ is not enabled))
+                if off:
+                    ck.witness("C09:switch-differs-between-threads",
+                               "after %s in thread %r the switch must be %s in the whole process, but thread(s) %s see %s "
+                               "(module attribute / get_build_time_validation())"
+                               % (op["op"] + ("(%s)" % op["value"] if op["op"] == "set" else ""), where, enabled, off,
+                                  {w_: (r.get("seen") or {}).get(w_) for w_ in off}),
+                               input={"thread_session": so_far}, expected=enabled, observed=r.get("seen"))
+                trace.append((thread_no(where), {"enable": True, "disable": False}.get(op["op"], op.get("value") if op["op"] == "set" else None),
+                              [(thread_no(w_), (v_ if isinstance(v_, bool) else (not enabled))) for w_, v_ in seen]))
+                ck.tally("thread-op:%s:%s" % (op["op"], where.split(":")[0]))
+            elif r.get("switch") != enabled or r.get("getter") != enabled:
                 ck.witness("C09:switch-state", "after %s the switch is %s / get_build_time_validation() says %s, expected %s"
-                           % (op["op"], r.get("switch"), r.get("getter"), enabled), input={"ops": sess["ops"][:sess["ops"].index(op) + 1]})
+                           % (op["op"], r.get("switch"), r.get("getter"), enabled), input={"ops": sess["ops"][:idx + 1]})
                 enabled = r.get("switch")
             if op["op"] == "validate":
                 ck.tally("op:validate-directly")
+                continue
+            if op["op"] == "add":
+                on = enabled and op["validate"]
+                code = r["code"][0]
+                inp = {"thread_session": so_far, "parent": op["parent"], "class": op["cls"], "kwargs": op["kw"], "switch": enabled,
+                       "validate": op["validate"], "thread": where}
+                ck.count(1, nontrivial_key=json.dumps(["add", op["cls"], enabled, where, idx]))
+                ck.tally("thread-add:%s:%s" % ("on" if on else "off", "returns" if code == 0 else "raises"))
+                if not r.get("switch_unchanged", True):
+                    ck.witness("C09:call-changes-the-global-switch", "add() changed the global switch", input=inp)
+                if "vchild" not in r:
+                    ck.tally("thread-add:constructor-raises")
+                elif on and not r["vchild"] and (code == 0 or r.get("exc_type") != "ValueError"):
+                    ck.witness("C09:add-returns-with-invalid-component", "validation is on (switched by the operations so far, this "
+                               "call in thread %r): %s().add(%s, ..) %s although validate() rejects the %s in a fresh process"
+                               % (where, op["parent"], op["cls"], "returned" if code == 0 else "raised " + str(r.get("exc")), op["cls"]),
+                               input=inp, expected="ValueError", observed=r.get("code"))
+                elif not on and (code != 0 or not r.get("stored")):
+                    ck.witness("C09:validation-off-but-refused:add", "validation is off for the whole process (this call in thread %r) "
+                               "but add(<class>) %s" % (where, "raises " + str(r.get("exc")) if code != 0 else "did not store the component"),
+                               input=inp, expected="the component, unvalidated", observed=r.get("code"))
                 continue
             if op["op"] != "factory":
                 ck.tally("op:switch")
@@ -313,10 +441,13 @@ def evaluate(ck, sessions, results, initial):
             code = r["code"][0]
             inp = {"class": c, "kwargs": op["kw"], "switch": enabled, "validate": op["validate"], "form": op["form"], "via": op["via"],
                    "kind": kind, "key": key}
+            if threaded:
+                inp["thread"] = where
+                inp["thread_session"] = so_far
             if sess.get("pair"):
-                inp["earlier_in_this_process"] = [{k_: o_.get(k_) for k_ in ("op", "cls", "kw", "validate")} for o_ in sess["ops"][:sess["ops"].index(op)]]
+                inp["earlier_in_this_process"] = [{k_: o_.get(k_) for k_ in ("op", "cls", "kw", "validate")} for o_ in sess["ops"][:idx]]
                 ck.tally("pair:%s:%s" % (kind, "derived-after-ancestor" if op.get("after") else "first"))
-            ck.count(1, nontrivial_key=json.dumps([c, kind, enabled, op["validate"], op["form"]]),
+            ck.count(1, nontrivial_key=json.dumps([c, kind, enabled, op["validate"], op["form"]] + ([where, idx] if threaded else [])),
                      sample={"class": c, "kind": kind, "switch": enabled, "validate": op["validate"], "outcome": r["code"],
                              "explicit_validate": r.get("ret_valid")} if len(ck.samples) < 6 and kind in ("facet", "typo") else None)
             ck.tally("factory:%s:%s:%s" % (kind, "on" if on else "off", "returns" if code == 0 else "raises"))
@@ -387,6 +518,29 @@ def evaluate(ck, sessions, results, initial):
             ck.disagree("Super.component_factory[" + "+".join(which) + "]", inp, "model differs (bits %d)" % bits,
                         {k: r.get(k) for k in ("code", "exc", "vchild", "disabled", "ret_valid")})
     ck.extra["factory_calls_compared"] = len(rows)
+    if traces:
+        def step(t):
+            return "{| ts_thread := %d; ts_op := %s; ts_seen := %s |}" % (
+                t[0], "None" if t[1] is None else ("(Some SwEnable)" if t[1] else "(Some SwDisable)"),
+                coq_list(["(%d%%nat, %s)" % (n_, supergen.b(v_)) for n_, v_ in t[2]]))
+        text = HEADER + "Definition traces : list (nat * list tstep) := %s.\n" % coq_list(
+            ["\n (%d%%nat, %s)" % (i, coq_list([step(t) for t in tr])) for i, (_, tr) in enumerate(traces)])
+        text += ("Eval vm_compute in (flat_map (fun p => map (fun i => (fst p, i)) (switch_trace_mismatches %s 0 (snd p))) traces).\n"
+                 % supergen.b(initial is True))
+        ok, res_, out = ck.coq_eval("Cases_C09_threads.v", text, timeout=600)
+        ck.oblige("Cases_C09_threads.v:evaluates", ok, out[-1500:], kind="correspondence")
+        seen_sessions = set()
+        for m in re.finditer(r"\((\d+)(?:%nat)?, (\d+)(?:%nat)?\)", res_[0] if ok and res_ else ""):
+            i, j = int(m.group(1)), int(m.group(2))
+            if i in seen_sessions:
+                continue
+            seen_sessions.add(i)
+            sess_, tr = traces[i]
+            ck.disagree("Super.switch_trace", {"thread_session": [dict((k_, v_) for k_, v_ in o_.items() if k_ != "host")
+                                                                  for o_ in sess_["ops"][:j + 1]]},
+                        "one switch for the whole process: after step %d every thread sees the same position" % j,
+                        {"seen (thread no, value)": tr[j][2]})
+        ck.extra["thread_steps_compared"] = sum(len(tr) for _, tr in traces)
 
 
 def add_cases(ck, T, mir, classes, n):
@@ -437,9 +591,12 @@ def run(ck):
                "given to the REAL component_factory (class method / neuroml.utils wrapper, class / string form) inside sessions that "
                "move the global switch by the helper functions or by assignment, also through its opposite (re-enabling); thorough: "
                "all switch x flag x form combinations; an explicit validate() is run on what comes back; outcomes and components are "
-               "diffed against Model/Super.v inside Coq; add(<class>, **kwargs) goes through the C10 harness; non-trivial = distinct "
+               "diffed against Model/Super.v inside Coq; add(<class>, **kwargs) goes through the C10 harness; the same operations are also "
+               "spread over THREADS (main thread, threads started for one operation, long-lived pool workers; toggling in one, using "
+               "factory/add in another, both directions): after every step every live thread must observe the one position the model's "
+               "single switch has (trace checked inside Coq), and the factories must act on it; non-trivial = distinct "
                "(class, keyword kind, switch, flag, form)")
-    ck.trusted = ["Coq 8.16.1 kernel + vm_compute", "translators/tr_bindings.py + lib/supergen.py",
+    ck.trusted = ["Coq 8.16.1 kernel + vm_compute", "translators/tr_bindings.py + lib/supergen.py", "translators/tr_supersig.py, translators/tr_switch.py",
                   "GeneratedsSuperSuper.validate() and Cell.setup_nml_cell() enter the model as oracles (Section variables): the answer of "
                   "validate() on the same class constructed directly", "impl/c09_impl.py, impl/c10_impl.py"]
     ck.assumptions = ["what validate() accepts is another property's business (C02/C03); here: the factory's verdict is validate()'s verdict"]
@@ -458,7 +615,7 @@ def run(ck):
         ck.oblige("Props_C09.v", False, "instance obligations failed", kind="theorem")
     thorough = ck.tier == "thorough"
     sessions = make_sessions(ck, tab, T, mir, list(T.order), thorough)
-    sessions = sessions[:1] + pair_sessions(ck, tab, T, mir, thorough) + sessions[1:]
+    sessions = sessions[:1] + thread_sessions(ck, tab, T, mir, thorough) + pair_sessions(ck, tab, T, mir, thorough) + sessions[1:]
     order = {c: T.field_order(c) for c in T.order}
     chunk = 25
     parts = [sessions[i:i + chunk] for i in range(0, len(sessions), chunk)]
@@ -471,6 +628,13 @@ def run(ck):
             results.extend(out["results"])
             initial = out["initial"]
             c10.check_class_attrs(ck, out.get("new_class_attrs") or {}, {"first_session": part[0]["ops"][:3] if part else None})
+            rt = out.get("switch_runtime") or {}
+            if rt != {"module_type_plain": True, "package_type_plain": True, "in_module_dict": "bool", "same_module": True,
+                      "module_getattr": False} and not ck.extra.get("switch_runtime"):
+                ck.extra["switch_runtime"] = rt
+                ck.witness("C09:switch-is-not-a-plain-module-attribute", "at run time neuroml.build_time_validation.ENABLED is not a bool "
+                           "in the dictionary of a plain module reached through the package attribute: %s" % rt, input={},
+                           expected="a plain module-level bool", observed=rt)
     if initial is not True:
         ck.witness("C09:default-switch-off", "build-time validation is not enabled by default", input={})
     evaluate(ck, sessions, results, initial)
@@ -491,7 +655,17 @@ def replay(ck, data):
     T = bindings.Tables(tab)
     inp = data.get("input") or {}
     order = {c: T.field_order(c) for c in T.order}
-    if "class" in inp and "kwargs" in inp:
+    if inp.get("thread_session"):
+        sess = {"isolate": True, "threads": True, "ops": [dict(o_, host="NeuroMLDocument") if o_.get("op") == "factory" else o_
+                                                          for o_ in inp["thread_session"]]}
+        out = ck.impl("c09_impl.py", {"order": order, "sessions": [sess]}, timeout=600)
+        evaluate(ck, [sess], out["results"], out["initial"])
+        last = out["results"][0][-1]
+        print(json.dumps({"thread_session": [(o_["op"], o_.get("thread"), o_.get("value")) for o_ in sess["ops"]],
+                          "implementation_last_step": {k_: last.get(k_) for k_ in ("code", "exc", "switch", "getter", "seen")},
+                          "model_disagreements": [d_["model"] for d_ in ck.disagreements[:3]],
+                          "property_violations": sorted(set(w["key"] for w in ck.witnesses))}, indent=1)[:6000])
+    elif "class" in inp and "kwargs" in inp:
         op = {"op": "factory", "cls": inp["class"], "kw": inp["kwargs"], "validate": inp.get("validate", True), "form": inp.get("form", "str"),
               "via": inp.get("via", "classmethod"), "kind": inp.get("kind", "valid"), "key": inp.get("key")}
         earlier = []
